@@ -57,9 +57,9 @@ func symbolSet(ss []analysis.DocumentSymbol) []string {
 func propC18() *fw.Prop {
 	return &fw.Prop{
 		ID: "C18", Level: "exploration",
-		Rule:            "texts = the C14 family (grammar-complete scripts under layouts; every prefix; token deletions / insertions / duplications / swaps; byte damage incl. non-ASCII and invalid UTF-8; unbalanced brackets; missing names and types; token soups). For each text: analysis.CheckSource twice, GetSymbols, and HoverOn + GotoDefinition at EVERY cursor position of the text plus positions just outside it, all under a crash guard and a 60 s watchdog; every diagnostic must start inside the document or at its end and not end before it starts; the two analyses must give the same set of diagnostics and of symbols. Distinct = texts that produce ≥ 1 parser error (exercise recovery).",
+		Rule:            "texts = the C14 family (grammar-complete scripts under layouts; every prefix; token deletions / insertions / duplications / swaps; byte damage incl. non-ASCII and invalid UTF-8; unbalanced brackets; missing names and types; token soups). For each text: analysis.CheckSource twice, GetSymbols, and HoverOn + GotoDefinition at EVERY cursor position of the text plus positions just outside it (long documents — up to 2500 declarations, 1000+ diagnostics, + / − chains of 2..200 operands — are probed at every k-th position), all under a crash guard and a 60 s watchdog; every diagnostic must start inside the document or at its end and not end before it starts; the two analyses must give the same set of diagnostics and of symbols. Distinct = texts that produce ≥ 1 parser error (exercise recovery).",
 		Assumptions:     []string{trustedBase, "termination restated as bounded progress (60 s per text ≤ 64 KiB)"},
-		Require:         []string{"texts_with_parser_errors", "positions_probed", "diagnostics_located", "prefix_texts", "symbols_compared"},
+		Require:         []string{"texts_with_parser_errors", "positions_probed", "diagnostics_located", "prefix_texts", "symbols_compared", "long_documents"},
 		HangIsViolation: true,
 		Run:             runC18,
 	}
@@ -67,9 +67,10 @@ func propC18() *fw.Prop {
 
 // the previous analysis result of this worker process, re-examined after the next one
 var (
-	keptText   string
-	keptResult analysis.CheckResult
-	keptDiags  string
+	probeStride = 1 // cursor positions probed: every probeStride-th (1 = all)
+	keptText    string
+	keptResult  analysis.CheckResult
+	keptDiags   string
 )
 
 func checkEditorText(c *fw.Ctx, text, origin string) bool {
@@ -150,6 +151,9 @@ func checkEditorText(c *fw.Ctx, text, origin string) bool {
 	}
 	for l, n := range lines {
 		for ch := 0; ch <= n+1; ch++ {
+			if probeStride > 1 && (l*31+ch)%probeStride != 0 {
+				continue
+			}
 			if !probe(l, ch) {
 				return false
 			}
@@ -318,6 +322,75 @@ func runC18(c *fw.Ctx) {
 		t := "vars { " + strings.Join(decl, " ") + " }\n" + strings.Join(uses, "\n")
 		for rep := 0; rep < 6; rep++ {
 			if !checkEditorText(c, t, "near-miss-names") {
+				return
+			}
+		}
+	}
+	// long documents: many declarations, many diagnostics, long operator chains
+	bulk := func(idx int, id string, mk func(r *rng.R) string) bool {
+		if !c.Want(2_800_000+idx, id) {
+			return true
+		}
+		t := mk(c.Rng(id))
+		probeStride = 1 + len(t)/200
+		defer func() { probeStride = 1 }()
+		c.Count("long_documents", 1)
+		for rep := 0; rep < 3; rep++ {
+			if !checkEditorText(c, t, "long-document") {
+				return false
+			}
+		}
+		return true
+	}
+	types := []string{"monetary", "account", "number", "string", "asset", "portion"}
+	for k, nv := range []int{2, 10, 100, 249, 250, 251, 300, 999, 1000, 1001, 1100, 2500} {
+		for variant := 0; variant < 3; variant++ {
+			nv, variant := nv, variant
+			if !bulk(k*10+variant, fmt.Sprintf("bulk/unused/%d/%d", nv, variant), func(r *rng.R) string {
+				var b strings.Builder
+				b.WriteString("vars {\n")
+				for j := 0; j < nv; j++ {
+					fmt.Fprintf(&b, "  %s $v%d\n", types[(j+variant)%len(types)], j)
+				}
+				b.WriteString("}\n")
+				switch variant {
+				case 1: // warnings and an error come first
+					for j := 0; j < nv/2; j++ {
+						b.WriteString("send [USD 1] (source = {@world @a} destination = @b)\n")
+					}
+					b.WriteString("send [USD 1] (source = $undeclared destination = @b)\n")
+				case 2: // some of the variables are used
+					for j := 0; j < nv; j += 7 {
+						fmt.Fprintf(&b, "set_tx_meta(\"k%d\", $v%d)\n", j, j)
+					}
+				}
+				return b.String()
+			}) {
+				return
+			}
+		}
+	}
+	for nops := 2; nops <= 200; nops++ {
+		if c.Quick && nops > 48 && nops%8 != 0 {
+			continue
+		}
+		for variant := 0; variant < 4; variant++ {
+			nops, variant := nops, variant
+			if !bulk(1000+nops*4+variant, fmt.Sprintf("bulk/chain/%d/%d", nops, variant), func(r *rng.R) string {
+				operand := []string{"1", "[USD 1]", "$n", "$m"}[variant]
+				op := " + "
+				if nops%2 == 1 {
+					op = " - "
+				}
+				chain := strings.TrimSuffix(strings.Repeat(operand+op, nops), op)
+				pre := "vars { number $n monetary $m }\n"
+				switch variant {
+				case 0, 2:
+					return pre + "set_tx_meta(\"k\", " + chain + ")\nsend [USD " + chain + "] (source = @a destination = @b)\nset_tx_meta(\"m\", $m)"
+				default:
+					return pre + "send " + chain + " (source = @a destination = @b)\nset_tx_meta(\"n\", $n)\nset_tx_meta(\"k\", " + chain + ")"
+				}
+			}) {
 				return
 			}
 		}
